@@ -119,6 +119,46 @@ macro_rules! sweep {
 	}};
 }
 
+macro_rules! length_values {
+	($m:ident, $fr:expr, $dom:expr) => {{
+		use crate::fam::$m::{c05_case, SOp};
+		let rep = |c: char, n: usize| -> Vec<u8> { std::iter::repeat(c as u8).take(n).collect() };
+		let mut ops: Vec<SOp> = Vec::new();
+		for n in 0..=4usize {
+			ops.push(SOp::Query(Some(rep('y', n))));
+			ops.push(SOp::Fragment(Some(rep('g', n))));
+			ops.push(SOp::Authority(Some(rep('a', n))));
+			ops.push(SOp::Path(rep('r', n)));
+			let mut abs = rep('r', n);
+			abs.insert(0, b'/');
+			ops.push(SOp::Path(abs));
+			if n >= 1 {
+				ops.push(SOp::Scheme(Some(rep('t', n))));
+			}
+		}
+		ops.push(SOp::Query(None));
+		ops.push(SOp::Fragment(None));
+		ops.push(SOp::Authority(None));
+		let mut r = Report::new();
+		let mut vs = Vec::new();
+		for (t, _) in $dom.iter() {
+			r.states += 1;
+			for op in &ops {
+				let n = c05_case(t, op, &mut vs);
+				r.evaluations += n;
+				r.transitions += n;
+				r.distinct_nontrivial += n;
+			}
+			for v in vs.drain(..) {
+				r.violate(v);
+			}
+		}
+		r.traces = r.transitions;
+		let _ = $fr;
+		r
+	}};
+}
+
 macro_rules! ascii_values {
 	($m:ident, $f:expr, $fr:expr, $dom:expr) => {{
 		use crate::fam::$m::{c05_case, SOp};
@@ -189,6 +229,35 @@ pub fn run(ctx: &Ctx) -> Report {
 			Family::Iri => sweep!(iri, f, ctx, &dom, level),
 		};
 		total.merge(r);
+		// every relation between the lengths of the old value, the new value and what follows it: each
+		// component with 0..4 bytes, each setter value with 0..4 bytes
+		{
+			let rep = |c: char, n: usize| -> Vec<u8> { std::iter::repeat(c as u8).take(n).collect() };
+			let mut bufs: Vec<(Vec<u8>, syntax::Parts)> = Vec::new();
+			for pl in 0..=3usize {
+				for ql in 0..=4usize {
+					for fl in 0..=4usize {
+						for auth in [None, Some(domains::b("h"))] {
+							let mut path = rep('p', pl);
+							if auth.is_some() && pl > 0 {
+								path[0] = b'/';
+							}
+							let parts = syntax::Parts { scheme: Some(domains::b("s")), authority: auth.clone(), path, query: if ql == 0 { None } else { Some(rep('q', ql - 1)) }, fragment: if fl == 0 { None } else { Some(rep('f', fl - 1)) } };
+							let t = syntax::recompose(&parts);
+							if fr.valid(Kind::RiRef, &t) && syntax::split(&t) == parts {
+								bufs.push((t, parts));
+							}
+						}
+					}
+				}
+			}
+			let r = match f {
+				Family::Uri => length_values!(uri, &fr, &bufs),
+				Family::Iri => length_values!(iri, &fr, &bufs),
+			};
+			total.count(&format!("{}_length_relation_cases", f.name()), r.transitions);
+			total.merge(r);
+		}
 		// every printable ASCII character, one at a time, as (part of) a setter value, on a few buffers
 		{
 			let small: Vec<(Vec<u8>, syntax::Parts)> = ["", "s:", "//h", "s://u@h:1/p?q#f", "a/b", "/a", "s:a:b", "?q", "#f"]
